@@ -3,10 +3,12 @@ from props import _constrain as K
 
 ENV_BY_TIER = {"quick": {"NUMBA_DISABLE_JIT": "1"}, "thorough": {}}
 
-RULE = ("msprime tree sequences (2-7 samples, 1-1000 bp, Kingman/Beta/Dirac mergers, historical and internal "
+RULE = ("(kernel) msprime tree sequences (2-7 samples, 1-1000 bp, Kingman/Beta/Dirac mergers, historical and internal "
         "samples) x time-vector styles (noise, ties, reversed, 1e6..1e12, 1e-6..1e-12, zero, valid) x eps x "
         "iteration counts; a case is non-trivial when the kernel changes at least one time or k>0; distinct by "
-        "content hash")
+        "content hash; (pipeline) inside_outside / variational_gamma with DEFAULT constr_iterations on contemporaneous-sample "
+        "inputs (60% with randomly renumbered nodes) and a min_branch_length chosen relative to the dated branch lengths: "
+        "node times must equal the least fixed point of the 'mn' metadata exactly")
 ASSUME = ["tskit edge-table order gives children_first (checked on every generated input by the model's "
           "children_firstb)", "numba compiles _constrain_ages without fast-math"]
 
@@ -45,6 +47,50 @@ def strict_case(rng):
     return c if ok else None
 
 
+def pipeline_oracle(ctx, rng):
+    """API level: with all samples contemporaneous the least-squares phase is off BY DEFAULT
+    (constr_iterations not passed), so the dated node times must be exactly
+    max(unconstrained mean, children + min_branch_length), the means being the 'mn' metadata"""
+    import numpy as np
+    from vlib import gen
+    from props import _dating as D
+    method = rng.choice(["inside_outside", "inside_outside", "variational_gamma"])
+    ts = D.datable_ts(rng, historical=False, internal=False, big=rng.random() < 0.3)
+    if rng.random() < 0.6:
+        ts = gen.permute_nodes(rng, ts)
+    kw = D.method_options(rng, method, ts)
+    kw.pop("constr_iterations", None)
+    kw.pop("min_branch_length", None)
+    r = D.call(method, ts, **kw)
+    if r[0] != "ok":
+        return
+    t0 = r[1].nodes_time
+    lengths = np.array([t0[e.parent] - t0[e.child] for e in r[1].edges()])
+    eps = float(np.quantile(lengths, rng.choice([0.1, 0.5, 0.9]))) * rng.choice([0.5, 1.0, 2.0]) if rng.random() < 0.7 else 1e-8
+    if not eps > 0:
+        eps = 1e-8
+    kw["min_branch_length"] = eps
+    r = D.call(method, ts, **kw)
+    desc = {"level": "pipeline", "method": method, "opts": D.jsonable_opts(kw), "ts": gen.ts_summary(ts)}
+    if r[0] != "ok":
+        ctx.case(dict(desc, outcome=r[1]), nontrivial=False, kind="pipeline/raise")
+        return
+    out = r[1]
+    mn = D.node_md(out, "mn")
+    mean = [float(mn[u]) if not np.isnan(mn[u]) else float(ts.nodes_time[u]) for u in range(ts.num_nodes)]
+    case = {"t": mean, "parent": [int(x) for x in ts.edges_parent], "child": [int(x) for x in ts.edges_child], "eps": eps, "k": 0}
+    ref = K.lfp_reference(case)
+    got = [float(x) for x in out.nodes_time]
+    raised = sum(1 for a, b in zip(mean, got) if a != b)
+    ctx.case(dict(desc, outcome="ok", nodes_raised=raised), nontrivial=True, kind="pipeline/ok" + ("/raised" if raised else ""))
+    if not K.same_floats(ref, got):
+        bad = [u for u in range(len(got)) if ref[u] != got[u]][:5]
+        ctx.oracle_fail("pipeline-not-least-fixed-point",
+                        "%s with default constr_iterations on contemporaneous samples: node times are not max(mean, children+eps) at nodes %r "
+                        "(e.g. node %d: mean %r, expected %r, got %r)" % (method, bad, bad[0], mean[bad[0]], ref[bad[0]], got[bad[0]]),
+                        {"level": "pipeline", "ts": gen.ts_tables_dict(ts), "method": method, "opts": D.jsonable_opts(kw)})
+
+
 def run(ctx, model_ok=True):
     n = ctx.n(240, 1500)
     cases = [K.make_case(ctx.rng) for _ in range(n)]
@@ -64,6 +110,8 @@ def run(ctx, model_ok=True):
         if out == "assert" or not K.same_floats(out, c["t"]):
             ctx.oracle_fail("strict-unchanged", "strictly constrained times were modified",
                             {"case": c, "impl": out})
+    for _ in range(ctx.n(60, 600)):
+        pipeline_oracle(ctx, ctx.rng)
 
 
 def search(ctx):
@@ -71,6 +119,10 @@ def search(ctx):
     for _ in range(ctx.n(600, 3000)):
         c = K.make_case(ctx.rng)
         oracle(ctx, c, K.run_impl(c))
+        if ctx.oracle_fails:
+            return
+    for _ in range(ctx.n(300, 1500)):
+        pipeline_oracle(ctx, ctx.rng)
         if ctx.oracle_fails:
             return
 
